@@ -3,7 +3,7 @@
    (ZV.Gen.Gen_Bounds).  Only `exact lemma` here; proofs are in Params/ParamProofs.v (and CParamsAdjustProofs.v). *)
 From Coq Require Import ZArith List Bool.
 From ZV.Gen Require Import Gen_Bounds.
-From ZV.Params Require Import BoundsModel ParamModel ParamProofs CParamsAdjust CParamsAdjustProofs.
+From ZV.Params Require Import BoundsModel CParamsAdjust CParamsAdjustProofs ParamModel ParamProofs ParamProofs2 SessionModel SessionProofs.
 Import ListNotations.
 Local Open Scope Z_scope.
 
@@ -78,7 +78,9 @@ Theorem frames_reflect_parameters : forall ops w o,
   let w' := run w ops in
   exists dflag,
     snd (step w' (OCFrame o)) =
-      (Ok, [c_params (get_c w o) C_checksumFlag; c_params (get_c w o) C_contentSizeFlag; dflag; c_params (get_c w o) C_format])
+      (Ok, [ (if negb (c_params (get_c w o) C_checksumFlag =? 0) then 1 else 0);
+             (if negb (c_params (get_c w o) C_contentSizeFlag =? 0) then 1 else 0);
+             dflag; c_params (get_c w o) C_format ])
     /\ (dflag = 0 \/ dflag = c_params (get_c w o) C_dictIDFlag).
 Proof. exact frames_reflect_parameters_l. Qed.
 Print Assumptions frames_reflect_parameters.
@@ -195,7 +197,7 @@ Print Assumptions d_midframe_all_refused.
 
 Theorem d_reset_parameters_restores_defaults : forall d dir,
   is_params dir = true -> (d_stage d = S_init \/ is_session dir = true) ->
-  dctx_reset d dir = (mkD 0 (2 ^ z_ZSTD_WINDOWLOG_LIMIT_DEFAULT + 1) 0 0 0 0 0 S_init false (d_static d), Ok)
+  dctx_reset d dir = (mkD 0 (2 ^ z_ZSTD_WINDOWLOG_LIMIT_DEFAULT + 1) 0 0 0 0 0 S_init (dd_clear (d_dict d)) (d_static d), Ok)
   /\ dctx_get_p (fst (dctx_reset d dir)) D_windowLogMax = z_ZSTD_WINDOWLOG_LIMIT_DEFAULT.
 Proof. exact d_reset_parameters_restores_defaults_l. Qed.
 Print Assumptions d_reset_parameters_restores_defaults.
@@ -301,3 +303,453 @@ Theorem rsyncable_clamp_refuted :
             /\ ~ cvalue_ok C_rsyncable (s' C_rsyncable).
 Proof. exact rsyncable_clamp_refuted_l. Qed.
 Print Assumptions rsyncable_clamp_refuted.
+
+(* ================================================================== round 2 ================================================== *)
+(* ---- composite setters: ZSTD_CCtx_setCParams / setFParams / setParams ---- *)
+Theorem setCParams_exact : forall c cp,
+  cctx_set_cparams c cp =
+    if check_cparams cp then
+      match c_stage c with
+      | S_init => (mkC (cpar_store (c_params c) cp) S_init (c_dict c) (c_static c), Ok)
+      | S_mid => (c, Err E_stage_wrong)
+      end
+    else (c, Err E_outOfBound).
+Proof. exact set_cparams_char. Qed.
+Print Assumptions setCParams_exact.
+
+Theorem setFParams_exact : forall c fp,
+  cctx_set_fparams c fp =
+    match c_stage c with
+    | S_init => (mkC (fpar_store (c_params c) fp) S_init (c_dict c) (c_static c), Ok)
+    | S_mid => (c, Err E_stage_wrong)
+    end.
+Proof. exact set_fparams_char. Qed.
+Print Assumptions setFParams_exact.
+
+Theorem setParams_exact : forall c cp fp,
+  cctx_set_params c cp fp =
+    if check_cparams cp then
+      match c_stage c with
+      | S_init => (mkC (cpar_store (fpar_store (c_params c) fp) cp) S_init (c_dict c) (c_static c), Ok)
+      | S_mid => (c, Err E_stage_wrong)
+      end
+    else (c, Err E_outOfBound).
+Proof. exact set_params_char. Qed.
+Print Assumptions setParams_exact.
+
+Theorem composite_all_or_nothing : forall c cp fp,
+  (snd (cctx_set_cparams c cp) <> Ok -> fst (cctx_set_cparams c cp) = c)
+  /\ (snd (cctx_set_fparams c fp) <> Ok -> fst (cctx_set_fparams c fp) = c)
+  /\ (snd (cctx_set_params c cp fp) <> Ok -> fst (cctx_set_params c cp fp) = c).
+Proof. exact composite_all_or_nothing_l. Qed.
+Print Assumptions composite_all_or_nothing.
+
+Theorem composite_is_sequence_of_setParameter : forall c cp fp, c_stage c = S_init -> check_cparams cp = true ->
+  set_each c (cpar_sets cp) = (fst (cctx_set_cparams c cp), [Ok; Ok; Ok; Ok; Ok; Ok; Ok])
+  /\ set_each c (fpar_sets fp) = (fst (cctx_set_fparams c fp), [Ok; Ok; Ok])
+  /\ set_each c (fpar_sets fp ++ cpar_sets cp) = (fst (cctx_set_params c cp fp), [Ok; Ok; Ok; Ok; Ok; Ok; Ok; Ok; Ok; Ok]).
+Proof. exact composite_is_sequence_l. Qed.
+Print Assumptions composite_is_sequence_of_setParameter.
+
+Theorem composite_cells : forall s cp fp q,
+  cpar_store s cp q =
+    match q with
+    | C_windowLog => wlog cp | C_chainLog => clog cp | C_hashLog => hlog cp | C_searchLog => slog cp
+    | C_minMatch => mmatch cp | C_targetLength => tlen cp | C_strategy => strat cp
+    | _ => s q
+    end
+  /\ fpar_store s fp q =
+    match q with
+    | C_contentSizeFlag => flag (f_cs fp) | C_checksumFlag => flag (f_ck fp)
+    | C_dictIDFlag => if f_nd fp =? 0 then 1 else 0
+    | _ => s q
+    end.
+Proof. exact composite_cells_l. Qed.
+Print Assumptions composite_cells.
+
+(* ---- ZSTD_CCtxParams_init_advanced ---- *)
+Theorem init_advanced_all_or_nothing : forall s cp fp,
+  snd (cparams_init_advanced s cp fp) <> Ok -> fst (cparams_init_advanced s cp fp) = s.
+Proof. exact init_advanced_all_or_nothing_l. Qed.
+Print Assumptions init_advanced_all_or_nothing.
+
+Theorem init_advanced_cells : forall s cp fp q, check_cparams cp = true ->
+  fst (cparams_init_advanced s cp fp) q =
+  match q with
+  | C_compressionLevel => 0
+  | C_windowLog => wlog cp | C_chainLog => clog cp | C_hashLog => hlog cp | C_searchLog => slog cp
+  | C_minMatch => mmatch cp | C_targetLength => tlen cp | C_strategy => strat cp
+  | C_contentSizeFlag => f_cs fp | C_checksumFlag => f_ck fp | C_dictIDFlag => if f_nd fp =? 0 then 1 else 0
+  | C_useRowMatchFinder => resolve_row z_ZSTD_ps_auto cp
+  | C_useBlockSplitter => resolve_split z_ZSTD_ps_auto cp
+  | C_enableLongDistanceMatching => resolve_ldm z_ZSTD_ps_auto cp
+  | C_maxBlockSize => z_ZSTD_BLOCKSIZE_MAX
+  | C_searchForExternalRepcodes => z_ZSTD_ps_disable
+  | _ => 0
+  end.
+Proof. exact init_advanced_cells_l. Qed.
+Print Assumptions init_advanced_cells.
+
+Theorem header_checksum_bit_refuted : hdr_checksum_bit true (-1) = 0 /\ hdr_checksum_bit false (-1) = 1
+  /\ forall v, hdr_checksum_bit false v = if v =? 0 then 0 else 1.
+Proof. exact header_checksum_bit_l. Qed.
+Print Assumptions header_checksum_bit_refuted.
+
+(* ---- decoder side: dictionary calls ---- *)
+Theorem d_dict_calls_midframe_refused : forall d k, d_stage d = S_mid ->
+  dctx_refddict d k = (d, Err E_stage_wrong) /\ dctx_load d k = (d, Err E_stage_wrong)
+  /\ dctx_refprefix d k = (d, Err E_stage_wrong).
+Proof. exact d_dict_calls_midframe_refused_l. Qed.
+Print Assumptions d_dict_calls_midframe_refused.
+
+Theorem d_dict_calls_replace : forall d k, d_stage d = S_init ->
+  (let d' := fst (dctx_refddict d k) in
+   snd (dctx_refddict d k) = Ok /\ dsame d d' /\ d_stage d' = S_init
+   /\ dd_kind (d_dict d') = (if k =? 0 then DK_none else DK_ref k) /\ dd_uses (d_dict d') = (if k =? 0 then 0 else 2))
+  /\ (let d' := fst (dctx_load d k) in
+      snd (dctx_load d k) = Ok /\ dsame d d' /\ d_stage d' = S_init
+      /\ dd_kind (d_dict d') = (if k =? 0 then DK_none else DK_local k) /\ dd_uses (d_dict d') = (if k =? 0 then 0 else 2)
+      /\ dd_set (d_dict d') = dd_set (d_dict d))
+  /\ (let d' := fst (dctx_refprefix d k) in
+      snd (dctx_refprefix d k) = Ok /\ dsame d d' /\ d_stage d' = S_init
+      /\ dd_kind (d_dict d') = (if k =? 0 then DK_none else DK_pfx k) /\ dd_uses (d_dict d') = 1
+      /\ dd_set (d_dict d') = dd_set (d_dict d)).
+Proof. exact d_dict_calls_replace_l. Qed.
+Print Assumptions d_dict_calls_replace.
+
+Theorem d_refddict_set : forall d k, d_stage d = S_init -> k <> 0 ->
+  dd_set (d_dict (fst (dctx_refddict d k))) =
+    if d_refMultipleDDicts d =? 1 then Some (k :: match dd_set (d_dict d) with Some l => l | None => [] end)
+    else dd_set (d_dict d).
+Proof. exact d_refddict_set_l. Qed.
+Print Assumptions d_refddict_set.
+
+Theorem d_prefix_first_frame : forall d k fid, d_stage d = S_init -> dd_set (d_dict d) = None ->
+  let d1 := fst (dctx_refprefix d k) in
+  d_next_use d1 fid = (if k =? 0 then DK_none else DK_pfx k)
+  /\ dd_uses (d_after_header d1 fid) = 0 /\ dd_set (d_after_header d1 fid) = None.
+Proof. exact d_prefix_first_frame_l. Qed.
+Print Assumptions d_prefix_first_frame.
+
+Theorem d_prefix_single_use : forall ops w o,
+  Forall (fun x => d_attach o x = false) ops -> d_spent (get_d w o) ->
+  d_spent (get_d (run w ops) o) /\ forall fmt fid, snd (dd_stream_header false (get_d (run w ops) o) fmt fid) = DK_none.
+Proof. exact d_spent_history_l. Qed.
+Print Assumptions d_prefix_single_use.
+
+Theorem d_dict_sticky : forall ops w o k,
+  Forall (fun x => d_drop o x = false) ops -> d_holds (get_d w o) k ->
+  d_holds (get_d (run w ops) o) k /\ forall fid, d_next_use (get_d (run w ops) o) fid = k.
+Proof. exact d_dict_sticky_l. Qed.
+Print Assumptions d_dict_sticky.
+
+Theorem d_reset_dict_rules : forall d dir,
+  (is_session dir = true -> is_params dir = false -> d_dict (fst (dctx_reset d dir)) = d_dict d)
+  /\ (is_params dir = true -> (d_stage d = S_init \/ is_session dir = true) ->
+      dd_kind (d_dict (fst (dctx_reset d dir))) = DK_none /\ dd_uses (d_dict (fst (dctx_reset d dir))) = 0
+      /\ dd_set (d_dict (fst (dctx_reset d dir))) = dd_set (d_dict d)).
+Proof. exact d_reset_dict_rules_l. Qed.
+Print Assumptions d_reset_dict_rules.
+
+(* ---- ZSTD_d_refMultipleDDicts ---- *)
+Theorem d_multi_reached : forall d a b, d_stage d = S_init -> d_refMultipleDDicts d = 1 -> d_format d = 0 ->
+  dd_set (d_dict d) = None -> ((a = 1 /\ b = 2) \/ (a = 2 /\ b = 1)) ->
+  d_multi (fst (dctx_refddict (fst (dctx_refddict d a)) b)).
+Proof. exact d_multi_reached_l. Qed.
+Print Assumptions d_multi_reached.
+
+Theorem d_multi_decodes : forall d, d_multi d ->
+  (forall f, f = 0 \/ f = 1 \/ f = 2 ->
+     snd (dctx_dec_stream d f) = Ok /\ d_multi (fst (dctx_dec_stream d f))
+     /\ (f <> 0 -> d_next_use d f = DK_ref f))
+  /\ (forall fs, (forall f, In f fs -> f = 0 \/ f = 1 \/ f = 2) ->
+        snd (dctx_dec_oneshot d fs) = Ok /\ d_multi (fst (dctx_dec_oneshot d fs))).
+Proof. exact d_multi_decodes_l. Qed.
+Print Assumptions d_multi_decodes.
+
+Theorem d_multi_history : forall ops w o,
+  Forall (fun x => d_drop o x = false) ops -> d_multi (get_d w o) ->
+  let d := get_d (run w ops) o in
+  d_multi d /\ (forall f, f = 1 \/ f = 2 -> snd (dctx_dec_stream d f) = Ok /\ d_next_use d f = DK_ref f /\ snd (dctx_dec_oneshot d [f]) = Ok).
+Proof. exact d_multi_history_l. Qed.
+Print Assumptions d_multi_history.
+
+Theorem stale_dictid_selection_refuted :
+  snd (dctx_dec_stream_gen true f29_ctx 2) <> Ok /\ snd (dctx_dec_stream f29_ctx_now 2) = Ok.
+Proof. exact stale_dictid_selection_refuted_l. Qed.
+Print Assumptions stale_dictid_selection_refuted.
+
+Theorem oneshot_stale_tables_refuted :
+  snd (dctx_dec_oneshot_gen true f30_ctx [1]) <> Ok /\ snd (dctx_dec_oneshot f30_ctx [1]) = Ok /\ d_multi f30_ctx.
+Proof. exact oneshot_stale_tables_refuted_l. Qed.
+Print Assumptions oneshot_stale_tables_refuted.
+
+(* ---- ZSTD_CCtx_setPledgedSrcSize ---- *)
+Theorem pledge_call : forall w o v,
+  (c_stage (xget_c w o) = S_mid -> xstep w (XPledge o v) = (w, (Err E_stage_wrong, [])))
+  /\ (c_stage (xget_c w o) = S_init ->
+      xstep w (XPledge o v) = (put_s w o (set_pledge (get_s w o) (u64 (v + 1))), (Ok, []))).
+Proof. exact pledge_call_l. Qed.
+Print Assumptions pledge_call.
+
+Theorem pledge_unknown_is_default : u64 (z_ZSTD_CONTENTSIZE_UNKNOWN + 1) = 0 /\ s_pledge sess_new = 0.
+Proof. exact (conj pledge_unknown_is_zero eq_refl). Qed.
+Print Assumptions pledge_unknown_is_default.
+
+Theorem pledge_sticky : forall ops w o,
+  Forall (fun x => touches_pledge o x = false) ops ->
+  s_pledge (get_s (xrun w ops) o) = s_pledge (get_s w o).
+Proof. exact pledge_sticky_l. Qed.
+Print Assumptions pledge_sticky.
+
+Theorem pledge_single_frame : forall w o,
+  s_pledge (get_s (fst (xstep w (XB (OCFrame o)))) o) = 0
+  /\ s_pledge (get_s (fst (xstep w (XFxWin o))) o) = 0
+  /\ s_pledge (get_s (fst (xstep w (XB (OCSimple o)))) o) = 0
+  /\ (fst (snd (xstep w (XB (OCEnd o)))) = Ok -> s_pledge (get_s (fst (xstep w (XB (OCEnd o)))) o) = 0)
+  /\ (forall dir, is_session dir = true -> s_pledge (get_s (fst (xstep w (XB (OCReset o dir)))) o) = 0).
+Proof. exact pledge_single_frame_l. Qed.
+Print Assumptions pledge_single_frame.
+
+Theorem pledge_kept_by_parameter_reset : forall w o dir, is_session dir = false ->
+  s_pledge (get_s (fst (xstep w (XB (OCReset o dir)))) o) = s_pledge (get_s w o).
+Proof. exact pledge_kept_by_parameter_reset_l. Qed.
+Print Assumptions pledge_kept_by_parameter_reset.
+
+Theorem pledge_overriding_rules : forall w o,
+  let cs := c_params (xget_c w o) C_contentSizeFlag in
+  (exists did use, s_last (get_s (fst (xstep w (XB (OCFrame o)))) o) = Some (mkFI (fcs_of cs sz_oneshot) did use))
+  /\ (exists did use, s_last (get_s (fst (xstep w (XFxWin o))) o) = Some (mkFI (fcs_of cs sz_fxwin) did use))
+  /\ (c_stage (xget_c w o) = S_init ->
+      exists did use, s_last (get_s (fst (xstep w (XB (OCEnd o)))) o) = Some (mkFI (fcs_of cs 0) did use))
+  /\ s_last (get_s (fst (xstep w (XB (OCSimple o)))) o) = Some (mkFI sz_oneshot 0 0).
+Proof. exact overriding_rules_l. Qed.
+Print Assumptions pledge_overriding_rules.
+
+Theorem streamed_frame_carries_pledge : forall w o, c_stage (xget_c w o) = S_init ->
+  let s := get_s w o in
+  let s' := get_s (fst (xstep w (XB (OCBegin o)))) o in
+  fi_fcs (s_cur s') = (if negb (c_params (xget_c w o) C_contentSizeFlag =? 0) && negb (s_pledge s =? 0) then s_pledge s - 1 else -1)
+  /\ s_pledge s' = s_pledge s /\ s_fed s' = sz_chunk.
+Proof. exact streamed_frame_carries_pledge_l. Qed.
+Print Assumptions streamed_frame_carries_pledge.
+
+Theorem pledge_controlled_at_end : forall w o,
+  c_stage (xget_c w o) = S_mid -> s_pledge (get_s w o) <> 0 -> s_fed (get_s w o) + 1 <> s_pledge (get_s w o) ->
+  fst (snd (xstep w (XB (OCEnd o)))) = Err E_other
+  /\ (mt_frame (get_s w o) = false -> fst (xstep w (XB (OCEnd o))) = put_s w o (get_s w o)).
+Proof. exact pledge_controlled_at_end_l. Qed.
+Print Assumptions pledge_controlled_at_end.
+
+Theorem pledge_met_frame_ends : forall w o,
+  c_stage (xget_c w o) = S_mid -> (s_pledge (get_s w o) = 0 \/ s_fed (get_s w o) + 1 = s_pledge (get_s w o)) ->
+  fst (snd (xstep w (XB (OCEnd o)))) = Ok
+  /\ s_last (get_s (fst (xstep w (XB (OCEnd o)))) o) = Some (s_cur (get_s w o))
+  /\ c_stage (xget_c (fst (xstep w (XB (OCEnd o)))) o) = S_init.
+Proof. exact pledge_met_frame_ends_l. Qed.
+Print Assumptions pledge_met_frame_ends.
+
+Theorem oneshot_pledge_leak_refuted :
+  let h := [XB (OCSimple false); XB (OCBegin false)] in
+  fst (snd (xstep_gen true true true (xrun_gen true true true xworld_new h) (XB (OCEnd false)))) = Err E_other
+  /\ fst (snd (xstep (xrun xworld_new h) (XB (OCEnd false)))) = Ok.
+Proof. exact oneshot_pledge_leak_refuted_l. Qed.
+Print Assumptions oneshot_pledge_leak_refuted.
+
+(* ---- applied parameters, mid-frame updates, the multi-threaded frame ---- *)
+Theorem applied_changes_only_at_frame_start : forall ops w o,
+  Forall (fun x => touches_applied o x = false) ops ->
+  s_applied (get_s (xrun w ops) o) = s_applied (get_s w o) /\ s_mt (get_s (xrun w ops) o) = s_mt (get_s w o).
+Proof. exact applied_sticky_l. Qed.
+Print Assumptions applied_changes_only_at_frame_start.
+
+Theorem applied_unchanged_midframe : forall w o b, c_stage (xget_c w o) = S_mid -> (b = OCBegin o \/ b = OCEnd o) ->
+  s_applied (get_s (fst (xstep w (XB b))) o) = s_applied (get_s w o)
+  /\ mt_wlog (get_s (fst (xstep w (XB b))) o) = mt_wlog (get_s w o).
+Proof. exact applied_unchanged_midframe_l. Qed.
+Print Assumptions applied_unchanged_midframe.
+
+Theorem applied_at_frame_start : forall w o,
+  let c := xget_c w o in
+  let s := get_s w o in
+  (c_stage c = S_init -> s_applied (get_s (fst (xstep w (XB (OCBegin o)))) o) = frame_resolve c (s_pledge s) false)
+  /\ (c_stage c = S_init -> s_applied (get_s (fst (xstep w (XB (OCEnd o)))) o) = frame_resolve c (u64 1) false)
+  /\ s_applied (get_s (fst (xstep w (XB (OCFrame o)))) o) = frame_resolve c (u64 (sz_oneshot + 1)) true
+  /\ s_applied (get_s (fst (xstep w (XB (OCFail o)))) o) = frame_resolve c (u64 (sz_oneshot + 1)) true
+  /\ s_applied (get_s (fst (xstep w (XFxWin o))) o) = frame_resolve c (u64 (sz_fxwin + 1)) true
+  /\ s_applied (get_s (fst (xstep w (XB (OCSimple o)))) o) = simple_applied.
+Proof. exact applied_at_frame_start_l. Qed.
+Print Assumptions applied_at_frame_start.
+
+Theorem applied_equals_requested : forall c pledge stable,
+  let s := c_params c in
+  let a := frame_resolve c pledge stable in
+  let src := u64 (pledge - 1) in
+  (forall p, copied_cell p = true -> a p = Some (s p))
+  /\ a C_compressionLevel = Some (match c_dict c with CD_cdict => lvl_cdict | _ => s C_compressionLevel end)
+  /\ a C_nbWorkers = Some (if src <=? z_ZSTDMT_JOBSIZE_MIN then 0 else s C_nbWorkers)
+  /\ a C_maxBlockSize = Some (if s C_maxBlockSize =? 0 then z_ZSTD_BLOCKSIZE_MAX else s C_maxBlockSize)
+  /\ a C_stableInBuffer = Some (if stable then 1 else s C_stableInBuffer)
+  /\ a C_stableOutBuffer = Some (if stable then 1 else s C_stableOutBuffer)
+  /\ (a C_contentSizeFlag = Some (s C_contentSizeFlag) \/ (pledge = 0 /\ a C_contentSizeFlag = Some 0))
+  /\ (uses_cdict (c_dict c) = false ->
+      let level := s C_compressionLevel in
+      let dictSize := match c_dict c with CD_prefix => sz_prefix | _ => 0 end in
+      let cp := cparams_from_store s level src dictSize z_ZSTD_cpm_noAttachDict in
+      a C_windowLog = Some (wlog cp) /\ a C_chainLog = Some (clog cp) /\ a C_hashLog = Some (hlog cp)
+      /\ a C_searchLog = Some (slog cp) /\ a C_minMatch = Some (mmatch cp) /\ a C_targetLength = Some (tlen cp)
+      /\ a C_strategy = Some (strat cp)
+      /\ a C_useRowMatchFinder = Some (resolve_row (s C_useRowMatchFinder) cp)
+      /\ a C_useBlockSplitter = Some (resolve_split (s C_useBlockSplitter) cp)
+      /\ a C_enableLongDistanceMatching = Some (resolve_ldm (s C_enableLongDistanceMatching) cp)).
+Proof. exact frame_resolve_cells_l. Qed.
+Print Assumptions applied_equals_requested.
+
+Theorem mt_update_exact : forall c x,
+  (mt_frame x = true -> s_changed x = true -> forall m, s_mt x = Some m ->
+     s_mt (mt_update c x) = Some (mt_rederived c m) /\ s_changed (mt_update c x) = false)
+  /\ ((mt_frame x = false \/ s_changed x = false) -> mt_update c x = x).
+Proof. exact mt_update_exact_l. Qed.
+Print Assumptions mt_update_exact.
+
+Theorem changed_raised_only_by_accepted_midframe_set : forall w x o,
+  s_changed (get_s w o) = false -> s_changed (get_s (fst (xstep w x)) o) = true ->
+  exists id v, x = XB (OCSet o id v) /\ c_stage (xget_c w o) = S_mid /\ is_auth_id id = true /\ fst (snd (xstep w x)) = Ok.
+Proof. exact changed_raised_only_by_midframe_set_l. Qed.
+Print Assumptions changed_raised_only_by_accepted_midframe_set.
+
+Theorem midframe_update_reaches_mt : forall w o p v m,
+  let c := xget_c w o in let s := get_s w o in
+  c_stage c = S_mid -> is_update_authorized p = true -> in_cbounds p v ->
+  mt_frame s = true -> s_mt s = Some m ->
+  let w1 := fst (xstep w (XB (OCSet o (cparam_id p) v))) in
+  let w2 := fst (xstep w1 (XB (OCBegin o))) in
+  c_params (xget_c w1 o) p = cnorm p v
+  /\ s_applied (get_s w1 o) = s_applied s /\ s_mt (get_s w1 o) = Some m /\ s_changed (get_s w1 o) = true
+  /\ s_applied (get_s w2 o) = s_applied s
+  /\ s_mt (get_s w2 o) = Some (mt_rederived (xget_c w1 o) m) /\ s_changed (get_s w2 o) = false
+  /\ wlog (mt_cp (mt_rederived (xget_c w1 o) m)) = wlog (mt_cp m).
+Proof. exact midframe_update_reaches_mt_l. Qed.
+Print Assumptions midframe_update_reaches_mt.
+
+Theorem mt_kept_without_update : forall w o, c_stage (xget_c w o) = S_mid -> s_changed (get_s w o) = false ->
+  s_mt (get_s (fst (xstep w (XB (OCBegin o)))) o) = s_mt (get_s w o).
+Proof. exact mt_kept_without_update_l. Qed.
+Print Assumptions mt_kept_without_update.
+
+Theorem mt_at_frame_start : forall w o n, c_stage (xget_c w o) = S_init ->
+  let c := xget_c w o in let s := get_s w o in
+  frame_resolve c (s_pledge s) false C_nbWorkers = Some n -> 0 < n ->
+  let s' := get_s (fst (xstep w (XB (OCBegin o)))) o in
+  s_mt s' =
+    Some (mkMT (match c_dict c with CD_cdict => lvl_cdict | _ => c_params c C_compressionLevel end)
+               (cparams_from_store (c_params c) (match c_dict c with CD_cdict => lvl_cdict | _ => c_params c C_compressionLevel end)
+                                   (u64 (s_pledge s - 1)) (match c_dict c with CD_prefix => sz_prefix | _ => 0 end) z_ZSTD_cpm_noAttachDict))
+  /\ s_changed s' = false.
+Proof. exact mt_at_frame_start_l. Qed.
+Print Assumptions mt_at_frame_start.
+
+Theorem refused_midframe_set_changes_nothing : forall w o id v,
+  fst (snd (xstep w (XB (OCSet o id v)))) <> Ok ->
+  xget_c (fst (xstep w (XB (OCSet o id v)))) o = xget_c w o /\ get_s (fst (xstep w (XB (OCSet o id v)))) o = get_s w o.
+Proof. exact refused_midframe_set_changes_nothing_l. Qed.
+Print Assumptions refused_midframe_set_changes_nothing.
+
+Theorem refused_set_raised_flag_refuted :
+  let h := [XB (OCSet false z_ZSTD_c_nbWorkers 1); XB (OCRefPrefix false 1); XB (OCBegin false)] in
+  let bad := XB (OCSet false z_ZSTD_c_hashLog 99) in
+  let w_old := xrun_gen false true true xworld_new h in
+  let w_now := xrun xworld_new h in
+  fst (snd (xstep_gen false true true w_old bad)) = Err E_outOfBound
+  /\ s_changed (get_s (fst (xstep_gen false true true w_old bad)) false) = true
+  /\ s_mt (get_s (fst (xstep_gen false true true (fst (xstep_gen false true true w_old bad)) (XB (OCBegin false)))) false)
+     <> s_mt (get_s w_old false)
+  /\ s_changed (get_s (fst (xstep w_now bad)) false) = false
+  /\ s_mt (get_s (fst (xstep (fst (xstep w_now bad)) (XB (OCBegin false)))) false) = s_mt (get_s w_now false).
+Proof. exact refused_set_raised_flag_refuted_l. Qed.
+Print Assumptions refused_set_raised_flag_refuted.
+
+Theorem flag_survived_frame_refuted :
+  let prev := [XB (OCBegin false); XB (OCSet false z_ZSTD_c_compressionLevel 3); XB (OCEnd false)] in
+  let next := [XB (OCSet false z_ZSTD_c_nbWorkers 1); XB (OCRefPrefix false 1); XB (OCBegin false)] in
+  let fresh := XB (OCSet false z_ZSTD_c_compressionLevel 3) :: next in
+  (forall p, c_params (xget_c (xrun xworld_new (prev ++ next)) false) p = c_params (xget_c (xrun xworld_new fresh) false) p)
+  /\ s_mt (get_s (xrun_gen false false true xworld_new (prev ++ next)) false) <> s_mt (get_s (xrun_gen false false true xworld_new fresh) false)
+  /\ s_mt (get_s (xrun xworld_new (prev ++ next)) false) = s_mt (get_s (xrun xworld_new fresh) false).
+Proof. exact flag_survived_frame_refuted_l. Qed.
+Print Assumptions flag_survived_frame_refuted.
+
+(* ---- dictionaries of a compression context ---- *)
+Theorem c_dict_calls_midframe_refused : forall c k, c_stage c = S_mid ->
+  cctx_load c k = (c, Err E_stage_wrong) /\ cctx_refcdict c k = (c, Err E_stage_wrong) /\ cctx_refprefix c k = (c, Err E_stage_wrong).
+Proof. exact c_dict_calls_midframe_refused_l. Qed.
+Print Assumptions c_dict_calls_midframe_refused.
+
+Theorem c_dict_calls_replace : forall c k, c_stage c = S_init ->
+  (c_params (fst (cctx_load c k)) = c_params c /\ c_stage (fst (cctx_load c k)) = S_init
+   /\ c_dict (fst (cctx_load c k)) = (if (k =? 0) || c_static c then CD_none else CD_local false)
+   /\ (snd (cctx_load c k) = Ok <-> (k = 0 \/ c_static c = false)))
+  /\ (cctx_refcdict c k = (mkC (c_params c) S_init (if k =? 0 then CD_none else CD_cdict) (c_static c), Ok))
+  /\ (cctx_refprefix c k = (mkC (c_params c) S_init (if k =? 0 then CD_none else CD_prefix) (c_static c), Ok)).
+Proof. exact c_dict_calls_replace_l. Qed.
+Print Assumptions c_dict_calls_replace.
+
+Theorem frame_uses_attached : forall w o, exists fcs did,
+  s_last (get_s (fst (xstep w (XB (OCFrame o)))) o) = Some (mkFI fcs did (next_use w o)).
+Proof. exact frame_uses_attached_l. Qed.
+Print Assumptions frame_uses_attached.
+
+Theorem attach_sets_next_use : forall w o k, c_stage (xget_c w o) = S_init -> k <> 0 ->
+  next_use (fst (xstep w (XB (OCRefCDict o k)))) o = k
+  /\ next_use (fst (xstep w (XB (OCRefPrefix o k)))) o = 2 + k
+  /\ (c_static (xget_c w o) = false -> next_use (fst (xstep w (XB (OCLoad o k)))) o = k)
+  /\ next_use (fst (xstep w (XB (OCRefCDict o 0)))) o = 0 /\ next_use (fst (xstep w (XB (OCRefPrefix o 0)))) o = 0
+  /\ next_use (fst (xstep w (XB (OCLoad o 0)))) o = 0.
+Proof. exact attach_sets_next_use_l. Qed.
+Print Assumptions attach_sets_next_use.
+
+Theorem c_prefix_single_use : forall w o b, c_dict (xget_c w o) = CD_prefix ->
+  (b = OCFrame o \/ b = OCFail o \/ (c_stage (xget_c w o) = S_init /\ (b = OCBegin o \/ b = OCEnd o))) ->
+  c_dict (xget_c (fst (xstep w (XB b))) o) = CD_none
+  /\ fi_use (s_cur (get_s (fst (xstep w (XB b))) o)) = 2 + s_dk (get_s w o)
+  /\ next_use w o = 2 + s_dk (get_s w o).
+Proof. exact c_prefix_single_use_l. Qed.
+Print Assumptions c_prefix_single_use.
+
+Theorem c_nodict_until_next_attach : forall ops w o,
+  Forall (fun x => c_attach o x = false) ops -> c_dict (xget_c w o) = CD_none ->
+  c_dict (xget_c (xrun w ops) o) = CD_none /\ next_use (xrun w ops) o = 0.
+Proof. exact c_nodict_history_l. Qed.
+Print Assumptions c_nodict_until_next_attach.
+
+Theorem c_dict_sticky : forall ops w o k,
+  Forall (fun x => c_drop o x = false) ops -> c_holds w o k ->
+  c_holds (xrun w ops) o k /\ next_use (xrun w ops) o = k.
+Proof. exact c_dict_sticky_l. Qed.
+Print Assumptions c_dict_sticky.
+
+Theorem c_reset_dict_rules : forall w o dir,
+  (is_session dir = true -> is_params dir = false ->
+     c_dict (xget_c (fst (xstep w (XB (OCReset o dir)))) o) = c_dict (xget_c w o) /\ next_use (fst (xstep w (XB (OCReset o dir)))) o = next_use w o)
+  /\ (is_params dir = true -> (c_stage (xget_c w o) = S_init \/ is_session dir = true) ->
+      c_dict (xget_c (fst (xstep w (XB (OCReset o dir)))) o) = CD_none /\ next_use (fst (xstep w (XB (OCReset o dir)))) o = 0).
+Proof. exact c_reset_dict_rules_l. Qed.
+Print Assumptions c_reset_dict_rules.
+
+(* ---- the extended model refines the base model ---- *)
+Theorem extended_history_is_base_history : forall ops w, xw_base (xrun w ops) = run (xw_base w) (ximages w ops).
+Proof. exact xrun_image. Qed.
+Print Assumptions extended_history_is_base_history.
+
+Theorem x_history_within_bounds : forall ops, Forall xop_wf ops ->
+  forall o,
+  (forall p, cvalue_ok p (c_params (xget_c (xrun xworld_new ops) o) p) /\ cvalue_ok p (w_p (xw_base (xrun xworld_new ops)) p))
+  /\ (forall p, let d := get_d (xw_base (xrun xworld_new ops)) o in
+                (in_dbounds p (dctx_get_p d p) \/ (p = D_maxBlockSize /\ dctx_get_p d p = 0)) /\ 0 < d_maxWindowSize d mod 2 ^ 32).
+Proof. exact x_history_within_bounds_l. Qed.
+Print Assumptions x_history_within_bounds.
+
+Theorem x_sticky_across_frames : forall ops w o,
+  Forall (fun x => xtouches_cparams o x = false) ops -> c_params (xget_c (xrun w ops) o) = c_params (xget_c w o).
+Proof. exact x_sticky_across_frames_l. Qed.
+Print Assumptions x_sticky_across_frames.
